@@ -52,6 +52,23 @@ class FuncInfo:
         return f'<FuncInfo {self.key}>'
 
 
+class SliceInfo(FuncInfo):
+    """a contiguous run of statements of a function, lifted mechanically (on every run) into a function of its free local names"""
+
+    def __init__(self, parent, qualname, node, stmts, params, returns):
+        FuncInfo.__init__(self, qualname, node, parent.module, parent.cls, parent.in_ayns, 'function', ())
+        self.parent = parent
+        self.stmts = stmts
+        self.params = params
+        self.returns = returns
+
+    def source_segment(self):
+        return '\n'.join(ast.get_source_segment(self.module.text, st) or '' for st in self.stmts)
+
+    def lines(self):
+        return (self.stmts[0].lineno, getattr(self.stmts[-1], 'end_lineno', self.stmts[-1].lineno))
+
+
 def _walk_own(fnode):
     """walk a function body without descending into nested function definitions"""
     todo = list(ast.iter_child_nodes(fnode))
@@ -165,6 +182,50 @@ class Repo:
             elif isinstance(st, ast.ImportFrom):
                 for a in st.names:
                     m.imports[a.asname or a.name] = ('from', '.' * st.level + (st.module or ''), a.name)
+
+    def add_slice(self, key, name, first, last, returns):
+        """lift the statements of function `key` from the first one satisfying `first` up to and including the next one satisfying
+        `last` into a function `<key>$<name>` whose parameters are the local names the statements read before writing them (module
+        level names and builtins excluded), in order of first use, and which returns the local `returns`.  Everything else of the
+        function is dropped.  Returns None (nothing registered) when the anchors are not found."""
+        import builtins
+        parent = self.funcs.get(key)
+        if parent is None:
+            return None
+        body = parent.node.body
+        i0 = next((i for i, st in enumerate(body) if first(st)), None)
+        if i0 is None:
+            return None
+        i1 = next((i for i in range(i0, len(body)) if last(body[i])), None)
+        if i1 is None:
+            return None
+        stmts = body[i0:i1 + 1]
+        m = parent.module
+        known = set(m.imports) | set(m.functions) | set(m.classes) | set(m.consts) | set(dir(builtins))
+        assigned, params = set(), []
+        for st in stmts:
+            # reads are collected before the writes of the same statement; a loop target counts as written for its body
+            names = [n for n in ast.walk(st) if isinstance(n, ast.Name)]
+            names.sort(key=lambda n: (n.lineno, n.col_offset))
+            writes_here = {n.id for n in names if isinstance(n.ctx, (ast.Store, ast.Del))}
+            for n in names:
+                if isinstance(n.ctx, ast.Load) and n.id not in assigned and n.id not in known and n.id not in params:
+                    if n.id in writes_here and not isinstance(st, ast.Assign):
+                        # written somewhere in this compound statement: a parameter only if it is read at a position before its first write
+                        first_w = min((w.lineno, w.col_offset) for w in names if w.id == n.id and isinstance(w.ctx, (ast.Store, ast.Del)))
+                        if (n.lineno, n.col_offset) > first_w:
+                            continue
+                    params.append(n.id)
+            assigned |= writes_here
+        fn = ast.FunctionDef(name=parent.node.name + '__' + name.replace('-', '_'),
+                             args=ast.arguments(posonlyargs=[], args=[ast.arg(arg=p) for p in params], vararg=None, kwonlyargs=[], kw_defaults=[], kwarg=None, defaults=[]),
+                             body=list(stmts) + [ast.Return(value=ast.Name(id=returns, ctx=ast.Load()))], decorator_list=[], returns=None, type_comment=None)
+        fn.lineno, fn.col_offset = stmts[0].lineno, 0
+        fn.end_lineno = getattr(stmts[-1], 'end_lineno', stmts[-1].lineno)
+        ast.fix_missing_locations(fn)
+        fi = SliceInfo(parent, parent.qualname + '$' + name, fn, stmts, params, returns)
+        self.funcs[fi.key] = fi
+        return fi
 
     def _register(self, fi):
         self.funcs[fi.key] = fi
